@@ -88,6 +88,24 @@ func main() {
 			runSaoHistory(r, rng, accs[1:], *ops, *profile == "saolong")
 			sum = Summary{Steps: r.Steps, Ops: r.Ops, Outs: r.Outs, Halted: c.Halted}
 			c.Close()
+		case "staking":
+			accs := []*Account{NewAccount("val0", "s"), NewAccount("val1", "s")}
+			bal := map[string]int64{"val0": 1000000000, "val1": 1000000000}
+			for i := 0; i < 8; i++ {
+				a := NewAccount(fmt.Sprintf("a%d", i), "s")
+				accs = append(accs, a)
+				bal[a.Name] = 3000000
+			}
+			np := DefaultNodeParams()
+			np.VstorageThreshold = 5000000
+			c, err := NewChain(GenesisSpec{Accounts: accs, Balances: bal, NodeParams: np, ValidatorIdx: []int{0, 1}, ValBonds: []int64{1000000, 900000}, MaxVals: 1}, time.Unix(1700000000, 0))
+			if err != nil {
+				panic(err)
+			}
+			r := NewRecorder(w, c)
+			runStakingHistory(r, rng, accs[2:], *ops)
+			sum = Summary{Steps: r.Steps, Ops: r.Ops, Outs: r.Outs, Halted: c.Halted}
+			c.Close()
 		case "select":
 			accs, bal := stdAccounts(12)
 			c, err := NewChain(GenesisSpec{Accounts: accs, Balances: bal, NodeParams: DefaultNodeParams(), ValidatorIdx: []int{0}, ValSelfBond: 1000000}, time.Unix(1700000000, 0))
